@@ -255,6 +255,16 @@ def _t_qrnn(rng, di, bidir=False):
   if not l["use_bias"]:
     # the RNN cells quantize self.bias even when it is None (C11 territory)
     l["bq"] = None
+  if rng.chance(0.35):
+    l["act"] = rng.pick([{"str": "quantized_tanh(4)"},
+                         {"str": "quantized_relu(4,1)"},
+                         {"cls": "quantized_tanh", "kw": {"bits": 6}},
+                         {"cls": "quantized_bits", "kw": {"bits": 6,
+                                                          "integer": 1}}])
+  if kind != "QSimpleRNN" and rng.chance(0.35):
+    l["ract"] = rng.pick([{"str": "quantized_sigmoid(4)"},
+                          {"cls": "quantized_sigmoid", "kw": {"bits": 6}},
+                          {"str": "quantized_relu(3,0)"}])
   if bidir:
     l["bidir"] = True
   elif rng.chance(0.25):
@@ -421,6 +431,11 @@ def _layer(l, name):
               recurrent_quantizer=q(l.get("rq")), bias_quantizer=q(l.get("bq")),
               state_quantizer=q(l.get("sq")),
               return_sequences=l["return_sequences"])
+    if l.get("act"):
+      kw["activation"] = l["act"]["str"] if "str" in l["act"] else q(l["act"])
+    if l.get("ract") and t != "QSimpleRNN":
+      kw["recurrent_activation"] = l["ract"]["str"] if "str" in l["ract"] \
+          else q(l["ract"])
     if l.get("bidir"):
       return qk.QBidirectional(cls(l["units"], **kw), name=name)
     if l.get("as_cell"):
